@@ -1,2 +1,45 @@
-(* C20 (statements follow) *)
-From GJS Require Import Base Regex Schema GoType Gen.
+(* C20 - each schema's code lands once, in the file and package mapped to its id.
+   Statements only; every proof is `exact <lemma>`; Print Assumptions under each.
+   The outputs table of generate.go:161-212 as a state machine; [order] is the iteration order of the
+   Go map (any permutation). *)
+From GJS Require Import Base Driver DriverP.
+
+(* the table starts well formed and every lookup keeps it so: distinct output objects have distinct
+   file names (hence one package per file), and every registered id points at the output whose file
+   and package are the ones mapped to it (or the defaults) *)
+Theorem C20_init : forall c, ds_wf c ds_init.
+Proof. exact ds_init_wf. Qed.
+Print Assumptions C20_init.
+
+Theorem C20_lands_in_its_target : forall order c st id st' i,
+  (forall l, Permutation (order l) l) -> ds_wf c st ->
+  find_output order c st id = DOk (st', i) ->
+  ds_wf c st' /\ i < length (ds_outs st') /\
+  (o_file (nth i (ds_outs st') dflt_out), o_pkg (nth i (ds_outs st') dflt_out)) = target c id.
+Proof. exact find_output_sound. Qed.
+Print Assumptions C20_lands_in_its_target.
+
+(* for every history of files and references (any sequence of ids), by induction over the history *)
+Theorem C20_every_history : forall order c ids, (forall l, Permutation (order l) l) ->
+  forall st st', ds_wf c st -> route order c st ids = DOk st' -> ds_wf c st'.
+Proof. exact route_wf. Qed.
+Print Assumptions C20_every_history.
+
+(* an id is routed once: asking again returns the same output and changes nothing *)
+Theorem C20_once : forall order c st id st' i,
+  (forall l, Permutation (order l) l) -> ds_wf c st -> find_output order c st id = DOk (st', i) ->
+  find_output order c st' id = DOk (st', i).
+Proof. exact find_output_stable. Qed.
+Print Assumptions C20_once.
+
+(* the conflict check / reuse does not depend on the order in which the outputs map is scanned *)
+Theorem C20_scan_order : forall outs outs' file pkg,
+  files_distinct outs -> Permutation outs outs' -> scan_outputs outs file pkg = scan_outputs outs' file pkg.
+Proof. exact scan_outputs_order. Qed.
+Print Assumptions C20_scan_order.
+
+(* non-vacuity: three ids, two of them mapped to the same file and package *)
+Example C20_example :
+  let c := mkDcfg [mkMap [97]%N [112]%N [102]%N []; mkMap [98]%N [112]%N [102]%N []] [100]%N [113]%N in
+  exists st, route (fun l => l) c ds_init [[97]%N; [98]%N; [99]%N; [97]%N] = DOk st /\ length (ds_outs st) = 2.
+Proof. eexists. split; vm_compute; reflexivity. Qed.
